@@ -525,3 +525,51 @@ func c09TScenarios() []tScenario {
 	}
 	return out
 }
+
+
+// ---------------------------------------------------------------- C06: the suspicion timer's callback racing a refutation
+
+// x is suspect with a running timer. At the very instant the timer expires a
+// refutation (alive at the next incarnation) is processed on another thread:
+// every interleaving of the timer callback (check under the lock, release,
+// declare dead) with the alive handler. Whatever the order, the refutation is
+// newer than the suspicion: x must end up alive at the refuting incarnation,
+// still listed (a death declared first is overridden by the newer alive).
+func c06TScenarios() []tScenario {
+	mk := func(name string, k int, late time.Duration) tScenario {
+		return tScenario{Name: name, Horizon: 40 * time.Second, Build: func(b *bubble) ([]tThread, func(map[string]string) (string, string, string)) {
+			n := tNode(b, func(c *ml.Config) { c.SuspicionMult = 2 + k; c.SuspicionMaxTimeoutMult = 1 })
+			for i := 0; i < 3; i++ {
+				n.M.VAliveNode(&ml.VAlive{Incarnation: 1, Node: fmt.Sprintf("q%d", i), Addr: ip4(byte(40 + i)), Port: 7946, Vsn: defaultVsn}, nil, false)
+			}
+			n.M.VAliveNode(&ml.VAlive{Incarnation: 1, Node: "x", Addr: ip4(9), Port: 7946, Vsn: defaultVsn}, nil, false)
+			advance(time.Microsecond)
+			n.M.VSuspectNode(&ml.VSuspect{Incarnation: 1, Node: "x", From: "t"})
+			r := findRec(n.M.VSnapshot(), "x")
+			dl := r.SuspStart.Add(r.SuspMax)
+			return []tThread{
+					{"refute", func() string {
+						time.Sleep(time.Until(dl) + late)
+						n.M.VAliveNode(&ml.VAlive{Incarnation: 2, Node: "x", Addr: ip4(9), Port: 7946, Meta: []byte("back"), Vsn: defaultVsn}, nil, false)
+						return "ok"
+					}},
+					{"other", func() string { // keeps a second thread around the instant of the deadline
+						time.Sleep(time.Until(dl))
+						_ = n.M.Members()
+						return "ok"
+					}},
+				}, func(res map[string]string) (string, string, string) {
+					settle()
+					time.Sleep(2 * time.Second)
+					settle()
+					x := findRec(n.M.VSnapshot(), "x")
+					out := recStr(x)
+					if x == nil || x.State != ml.StateAlive || x.Incarnation != 2 || !listed(n, "x") {
+						return "refuted-suspicion-killed", fmt.Sprintf("the refutation at incarnation 2 was processed but x ended as %s", out), out
+					}
+					return "", "", out
+				}
+		}}
+	}
+	return []tScenario{mk("suspicion-timeout||refutation at the deadline (k=0)", 0, 0), mk("suspicion-timeout||refutation at the deadline (k=1)", 1, 0)}
+}
